@@ -177,6 +177,7 @@ package cache
 // the key was already present (overwrite) and when the source reader fails.
 //@ props C12 C01 C09 C14 C15 C16
 //@ func MemoryCache.cacheInternal
+//@   decreases evictIfFull ? 1 : 0
 //@   ghost blocks-at 2
 //@   nopanic
 //@   ghost holds shard
